@@ -43,7 +43,11 @@ type Progs = Prog
 // genCase: programs of the supported fragment that also COMPILE on the unchanged tree (the open
 // compile findings of C01 are avoided: no optional: generic, no directly recursive inputs, no
 // client_getter); runtime properties are about code that builds.
-func GenCase(r *core.Rng, id int) *conv.Case {
+func GenCase(r *core.Rng, id int) *conv.Case { return GenCaseOpt(r, id, false) }
+
+// GenCaseOpt: with getter, half of the programs use a client_getter (and have no subscription,
+// which does not compile with one: open finding of C01).
+func GenCaseOpt(r *core.Rng, id int, getter bool) *conv.Case {
 	so := gen.DefaultSchemaOpts()
 	s := gen.RandomSchema(r, so)
 	// break direct input recursion (open finding of C01): make self references lists
@@ -101,12 +105,28 @@ func GenCase(r *core.Rng, id int) *conv.Case {
 	if variant == 5 {
 		defs = append(defs, gen.TwoSpreadsOp(r, s, "X")...)
 	}
+	if variant == 2 {
+		defs = append(defs, gen.AliasTwinDefs(r, s, "Y")...)
+	}
 	if variant == 3 && id%2 == 1 {
 		if tw := gen.NestedTwinOp(r, s, "TwinType"); tw != nil {
 			defs = append(defs, tw)
 		}
 	}
 	cfg.ClientGetter = ""
+	if getter && id%2 == 0 {
+		cfg.ClientGetter = "example.com/cg.GetClient"
+		if cfg.ContextType == "-" {
+			cfg.ClientGetter = "example.com/cg.GetClientNoCtx"
+		}
+		var kept []*gen.Def
+		for _, df := range defs {
+			if df.Kind != "subscription" {
+				kept = append(kept, df)
+			}
+		}
+		defs = kept
+	}
 	if cfg.Optional == "generic" {
 		cfg.Optional = "pointer"
 	}
@@ -262,6 +282,8 @@ type Result struct {
 	Args      []interface{}   `json:"args"`
 	RetNil    bool            `json:"retnil"`
 	RetErr    string          `json:"reterr"`
+	RetSame   bool            `json:"retsame"`
+	HasGetter bool            `json:"hasgetter"`
 	VarErr    string          `json:"varerr"`
 }
 
